@@ -1051,6 +1051,9 @@ type multi struct {
 	Packages []mpkg   `json:"packages"` // in dependency order: a package imports earlier ones only
 	Args     []string `json:"args"`     // command line, in listing order
 	Features []string `json:"features"`
+	// a history: in version 1 the first package declares Out with an explicit type (another element type) and has no
+	// derive calls; version 1 is generated, then the first package's files are replaced by the ones in Packages
+	V1 map[string]map[string]string `json:"v1,omitempty"`
 }
 
 // A chain of 2-3 packages with derive calls; each exports `Out`, the result of its last producing call, and the
@@ -1062,6 +1065,7 @@ func (g *gen) multi(id int) multi {
 	pool := []string{"app", "bus", "catalog", "depot", "engine", "index", "jobs", "kit", "lib", "model"}
 	g.r.Shuffle(len(pool), func(i, j int) { pool[i], pool[j] = pool[j], pool[i] })
 	m := multi{ID: fmt.Sprintf("m%d", id)}
+	hist := g.r.Intn(100) < 45
 	nd := 2 + g.r.Intn(2)
 	var cur ty
 	prevPkg, prevFn := "", "" // the package whose Out is read next, the qualified function that types it
@@ -1108,11 +1112,31 @@ func (g *gen) multi(id int) multi {
 		}
 		var calls []absCall
 		steps := 1 + g.r.Intn(3)
+		if hist && i > 0 && g.r.Intn(100) < 70 {
+			steps = 2
+		}
+		inExpr := flow
+		preserved := true
 		var lastName string
 		for si := 0; si < steps; si++ {
 			plugin := g.pick(producers[cur.kind])
 			for plugin == "Min" || plugin == "Max" { // keep a slice or a map flowing
 				plugin = g.pick(producers[cur.kind])
+			}
+			cross := false
+			if hist && i > 0 {
+				// only calls without companions typed by the user (version 1 must generate too, for another element type);
+				// often every call of the package waits for the imported package: the last one takes its Out as well
+				opts := []string{"Sort", "Unique", "Clone", "Set"}
+				if cur.kind == 2 {
+					opts = []string{"Keys", "Clone"}
+				}
+				plugin = g.pick(opts)
+				if si == steps-1 && steps >= 2 && preserved && cur.kind == 1 && g.r.Intn(100) < 70 {
+					plugin = g.pick([]string{"Union", "Intersect"})
+					cross = true
+					feats["every-call-waits-for-the-import"] = true
+				}
 			}
 			res := g.pick(scalars)
 			next, _ := apply(plugin, cur, res)
@@ -1131,13 +1155,20 @@ func (g *gen) multi(id int) multi {
 				args = []expr{{text: f, known: "func(" + cur.elem + ") " + res}, flow}
 				sig = "func(" + cur.elem + ") " + res + "," + cur.String()
 			case "Union", "Intersect":
-				if g.r.Intn(2) == 0 {
+				if cross {
+					args = []expr{flow, inExpr}
+				} else if g.r.Intn(2) == 0 || (hist && i > 0) {
 					args = []expr{flow, flow}
 				} else {
 					w := fresh("w")
 					decls = append(decls, fmt.Sprintf("var %s %s", w, cur))
 					args = []expr{flow, {text: w, known: cur.String()}}
 				}
+			}
+			switch plugin {
+			case "Sort", "Unique", "Clone", "Filter", "TakeWhile", "Union", "Intersect":
+			default:
+				preserved = false
 			}
 			qn := name + "." + nameFor(plugin, sig, si)
 			call := mkCall(qn[len(name)+1:], plugin, args...)
@@ -1158,7 +1189,7 @@ func (g *gen) multi(id int) multi {
 			}
 			cur = next
 		}
-		if g.r.Intn(100) < 50 {
+		if g.r.Intn(100) < 50 && !(hist && i > 0) {
 			// a consumer of the package's own result
 			w := fresh("w")
 			decls = append(decls, fmt.Sprintf("var %s %s", w, cur))
@@ -1167,7 +1198,7 @@ func (g *gen) multi(id int) multi {
 			decls = append(decls, "var Ok = "+call.text)
 			collect(call, &calls)
 		}
-		if g.r.Intn(100) < 70 {
+		if g.r.Intn(100) < 70 && !(hist && i > 0 && g.r.Intn(100) < 60) {
 			// a call that depends on nothing: the package always has something to generate
 			w := fresh("w")
 			t := slice(g.pick(scalars))
@@ -1196,6 +1227,21 @@ func (g *gen) multi(id int) multi {
 		}
 		p.Files[name+".go"] = b.String()
 		m.Packages = append(m.Packages, p)
+		if hist && i == 0 {
+			// version 1: Out is declared with an explicit type of another element type, no derive call
+			old := cur
+			if cur.kind == 2 {
+				for old.key == cur.key {
+					old.key = g.pick(scalars)
+				}
+			} else {
+				for old.elem == cur.elem {
+					old.elem = g.pick(scalars)
+				}
+			}
+			m.V1 = map[string]map[string]string{name: {name + ".go": fmt.Sprintf("package %s\n\nvar Out %s\n", name, old)}}
+			feats["old-files-of-an-earlier-version"] = true
+		}
 		prevPkg, prevFn = name, lastName
 		if i < nd-1 && g.r.Intn(100) < 55 {
 			// a package without derive calls that hands the value on
@@ -1244,6 +1290,8 @@ type moved struct {
 	V2Root  version `json:"v2_root"` // both chains in the root package; ./lib has lost every source file
 	Depth   int     `json:"depth"`
 	Feature string  `json:"feature"`
+	// when set: lib keeps a source file without derive calls in version 2 (instead of losing every source file)
+	V2Lib map[string]string `json:"v2_lib,omitempty"`
 }
 
 // v1: two packages (module root and ./lib) with one chain of derive calls each. v2: the declarations and calls of
@@ -1273,7 +1321,12 @@ func (g *gen) moved(id int) moved {
 		if len(c1.steps) > d {
 			d = len(c1.steps)
 		}
-		return moved{ID: fmt.Sprintf("v%d", id), V1Root: root, V1Lib: lib, V2Root: v2, Depth: d, Feature: "package-left-with-only-its-derived-file"}
+		mv := moved{ID: fmt.Sprintf("v%d", id), V1Root: root, V1Lib: lib, V2Root: v2, Depth: d, Feature: "package-left-with-only-its-derived-file"}
+		if g.r.Intn(2) == 0 {
+			mv.V2Lib = map[string]string{"lib.go": "package lib\n\n// Kept is all that is left here.\nvar Kept int\n"}
+			mv.Feature = "last-derive-call-moved-to-the-other-package"
+		}
+		return mv
 	}
 }
 
